@@ -2,8 +2,8 @@
    runRules) against the hand-written specification tables. *)
 From Coq Require Import List NArith Bool Arith Lia String.
 From RG.Ast Require Import Tree Walker WalkerProof WalkSpec WfCheck.
-From RG.Engine Require Import Dispatch RunState MatchEnv.
-From RGW Require Import Gen_AstSchema Gen_Walker Gen_WalkTags Gen_WalkTables Inst_Walker.
+From RG.Engine Require Import Dispatch RunState MatchEnv LoadFail Reentrant.
+From RGW Require Import Gen_AstSchema Gen_Walker Gen_WalkTags Gen_WalkTables Gen_RunnerState Inst_Walker.
 Import ListNotations.
 Local Open Scope N_scope.
 
@@ -151,6 +151,32 @@ Lemma gen_site_states_differ : site_state main_site <> site_state sub_site /\
   is_alloc (site_state main_site) = true /\ is_alloc (site_state sub_site) = true.
 Proof. split; [vm_compute; discriminate|split; vm_compute; reflexivity]. Qed.
 
+(* ---- Load calls that fail: where mergeRuleSets accumulates its result (read from source on this run) ---- *)
+Definition gen_mmode : merge_mode := if String.eqb gen_merge_mode "fresh" then MergeFresh else MergeInPlaceFirst.
+(* mergeRuleSets builds its result in a fresh set -- its arguments, the engine's live rule set among them, are only read --
+   and rejects a set whose group is loaded already; Engine.Load / LoadFromIR reassign the engine's set only after the
+   merge returned without error (gen_engine_load_first_direct_then_merge_after pins the statements) *)
+Lemma gen_merge_fresh : gen_mmode = MergeFresh /\ gen_merge_rejects_redefined_groups = true /\ gen_merge_starts_empty = true.
+Proof. vm_compute. auto. Qed.
+Definition gen_gengine_load := gengine_load gen_cmode gen_kmode gen_nb gen_mmode.
+Definition gen_ghistory := ghistory gen_cmode gen_kmode gen_nb gen_mmode.
+Definition gen_gaccepted := gaccepted gen_cmode gen_kmode gen_nb.
+
+Lemma gen_rejected_load_is_noop e c : gaccepts e c = false -> gen_gengine_load e c = e.
+Proof. unfold gen_gengine_load. rewrite (proj1 gen_merge_fresh). apply fresh_rejected_is_noop. Qed.
+Lemma gen_history_is_accepted_history e calls : gen_ghistory e calls = gen_ghistory e (map Some (gen_gaccepted e calls)).
+Proof. unfold gen_ghistory. rewrite (proj1 gen_merge_fresh). apply fresh_history_is_accepted_history. Qed.
+Lemma gen_history_rules calls e :
+  option_map g_rules (gen_ghistory e calls) =
+  fold_left (engine_load gen_cmode gen_kmode gen_nb) (map g_rules (gen_gaccepted e calls)) (option_map g_rules e).
+Proof. unfold gen_ghistory. rewrite (proj1 gen_merge_fresh). apply fresh_history_rules. Qed.
+
+(* ---- overlapping runs: where a run without RunContext.State gets its state (read from newRulesRunner on this run) ---- *)
+Definition gen_nil_policy : nil_state_policy :=
+  if String.eqb gen_nil_state_policy "fresh" then NilFresh else NilPooledEarlyRelease.
+Lemma gen_nil_state_is_fresh : gen_nil_policy = NilFresh /\ gen_new_runner_state_allocates_all = true.
+Proof. vm_compute. auto. Qed.
+
 (* ---- executable comparison of the model's reports with the engine's (correspondence files) ---- *)
 Definition rep3 := (N * N * N)%type.      (* rule index, start offset, end offset of the reported node *)
 Definition rep3_eqb (a b : rep3) : bool :=
@@ -168,16 +194,46 @@ Fixpoint mt_lookup (l : list (N * N * list (N * N * bool))) (i r : N) : list (N 
   | (i', r', cbs) :: l' => if N.eqb i i' && N.eqb r r' then cbs else mt_lookup l' i r
   end.
 Definition R (i t : N) : rule := {| r_id := i; r_tag := t |}.
-(* a load history: per Load call the file's own syntax rules and comment rules, then those of each imported bundle file.
-   0 agree; 2 syntax reports differ at index; 4 the model has no result *)
-Definition check_run (T : node) (FILES : list file_desc) (MT : list (N * N * list (N * N * bool))) (ENG : list rep3) : N * N :=
-  match gen_engine_of FILES with
-  | Some s =>
-    match model_run_set (fun r i => mt_lookup MT i (r_id r)) s (S (height T)) T with
-    | Some l => match reps_first_diff (map (fun p => (r_id (fst p), fst (snd p), snd (snd p))) l) ENG 0 with
-                | None => (0, 0)
-                | Some i => (2, i) end
-    | None => (4, 0)
-    end
-  | None => (4, 1)
+(* a load history: per Load call -- did the loader itself succeed, the groups the file declares (its own, then the imported
+   bundles' under their prefix), the file's own syntax rules and comment rules, then those of each imported bundle file.
+   Whether the engine accepts the call is the model's decision (a group that is loaded already: rejected).
+   0 agree; 2 syntax reports differ at index; 3 the engine accepted / rejected another set of calls (index of the first
+   differing call); 4 the model has no result *)
+Definition call_desc := (bool * list N * file_desc)%type.
+Definition call_set (c : call_desc) : option gset :=
+  match c with
+  | (false, _, _) => None
+  | (true, names, f) => Some {| g_rules := file_set gen_place_err gen_place_fan gen_cmode gen_kmode gen_nb (fst (fst f)) (snd (fst f)) (snd f); g_names := names |}
   end.
+(* which calls the model accepts, call by call *)
+Fixpoint accept_flags (e : option gset) (calls : list call_desc) : list bool :=
+  match calls with
+  | [] => []
+  | c :: r => gaccepts e (call_set c) :: accept_flags (gen_gengine_load e (call_set c)) r
+  end.
+Fixpoint flags_first_diff (a b : list bool) (i : N) : option N :=
+  match a, b with
+  | [], [] => None
+  | x :: a', y :: b' => if Bool.eqb x y then flags_first_diff a' b' (N.succ i) else Some i
+  | _, _ => Some i
+  end.
+Definition check_run (T : node) (CALLS : list call_desc) (ACCEPTED : list bool) (MT : list (N * N * list (N * N * bool))) (ENG : list rep3) : N * N :=
+  match flags_first_diff (accept_flags None CALLS) ACCEPTED 0 with
+  | Some i => (3, i)
+  | None =>
+    match gen_ghistory None (map call_set CALLS) with
+    | Some gs =>
+      match model_run_set (fun r i => mt_lookup MT i (r_id r)) (g_rules gs) (S (height T)) T with
+      | Some l => match reps_first_diff (map (fun p => (r_id (fst p), fst (snd p), snd (snd p))) l) ENG 0 with
+                  | None => (0, 0)
+                  | Some i => (2, i) end
+      | None => (4, 0)
+      end
+    | None => (4, 1)
+    end
+  end.
+
+(* a tree of overlapping runs as it was logged: kind 0 start (run, state), 1 report (run, index), 2 finish (run) *)
+Definition step_of (t : N * N * N) : step :=
+  match t with (k, r, x) => if N.eqb k 0 then Start r x else if N.eqb k 1 then Visit r x else Finish r end.
+Definition check_plan (LOG : list (N * N * N)) (COUNTS : list (N * N)) : N * N := (check_schedule (map step_of LOG) COUNTS, 0%N).
